@@ -453,6 +453,9 @@ func (s *Sim) Setup() {
 			}
 			obj.Annotations[edsv1.MD5ExtendedDaemonSetAnnotationKey] = h
 		}
+		if n := s.W.Extra["templateName"]; n != "" {
+			obj.Spec.Template.Name = n // cleared by the defaulting
+		}
 		if _, err := s.Store.CreateObj(obj); err != nil {
 			panic(err)
 		}
